@@ -248,6 +248,54 @@ func sameSet(rd container.Reader, want []sealedTok) string {
 			return "GetDelegation returns an invocation"
 		}
 	}
+	// the typed views of the reader: exactly the delegations / invocations that were added, under their CIDs
+	wantD, wantI := map[cid.Cid]bool{}, map[cid.Cid]bool{}
+	for _, t := range want {
+		if t.typ == "dlg" {
+			wantD[t.id] = true
+		} else {
+			wantI[t.id] = true
+		}
+	}
+	nd := 0
+	for c, d := range rd.GetAllDelegations() {
+		nd++
+		if !wantD[c] || d == nil {
+			return "GetAllDelegations yields " + c.String() + " which is not a delegation that was added"
+		}
+		if g, err := rd.GetDelegation(c); err != nil || g != d {
+			return "GetAllDelegations and GetDelegation disagree"
+		}
+	}
+	if nd != len(wantD) {
+		return fmt.Sprintf("GetAllDelegations yields %d delegations, %d were added", nd, len(wantD))
+	}
+	ni := 0
+	for c, v := range rd.GetAllInvocations() {
+		ni++
+		if !wantI[c] || v == nil {
+			return "GetAllInvocations yields " + c.String() + " which is not an invocation that was added"
+		}
+	}
+	if ni != len(wantI) {
+		return fmt.Sprintf("GetAllInvocations yields %d invocations, %d were added", ni, len(wantI))
+	}
+	inv, err := rd.GetInvocation()
+	switch {
+	case len(wantI) == 0 && !errors.Is(err, container.ErrNotFound):
+		return fmt.Sprintf("GetInvocation on a container without invocation: %v", err)
+	case len(wantI) == 1 && (err != nil || inv == nil):
+		return fmt.Sprintf("GetInvocation on a container with one invocation: %v", err)
+	case len(wantI) > 1 && !errors.Is(err, container.ErrMultipleInvocations):
+		return fmt.Sprintf("GetInvocation on a container with %d invocations: %v", len(wantI), err)
+	}
+	if len(wantI) == 1 {
+		for c := range wantI {
+			if g, err := rd.GetToken(c); err != nil || g != token.Token(inv) {
+				return "GetInvocation returns another token than the one stored under the invocation's CID"
+			}
+		}
+	}
 	return ""
 }
 
